@@ -1266,7 +1266,12 @@ class Reach:
                         if m_ and balanced(m_.group(2)[4:-1]):
                             return f'{m_.group(1)}ok({ref[1]})'
                         return None
-                    props = {s_: list(ps_) + [q_ for q_ in (_ref(p_) for p_ in ps_) if q_] for s_, ps_ in props.items()}
+                    def _nn(q_):
+                        # substituting a negated value under a negation leaves `!!v`: boolean double negation, same proposition
+                        while q_ and q_.startswith('!!'):
+                            q_ = q_[2:]
+                        return q_
+                    props = {s_: list(ps_) + [q_ for q_ in (_nn(_ref(p_)) for p_ in ps_) if q_] for s_, ps_ in props.items()}
             for s in succs:
                 if fn.blocks[s]['cleanup']:
                     continue
